@@ -128,7 +128,14 @@ pub fn check(c: &Case) -> Outcome {
     for y in &plain.y {
         ymax = ymax.max(inf_norm(y));
     }
-    let tolscale = c.base.atol.fit(n).max() + c.base.rtol.fit(n).max() * ymax;
+    let mut tolscale = c.base.atol.fit(n).max() + c.base.rtol.fit(n).max() * ymax;
+    if c.base.method == Meth::RADAU {
+        // Radau's dense output is a cubic held to RADAU5's internal tolerance 0.1*tol^(2/3) (C07: order 3; C01 finding K3)
+        let (rt, at) = (c.base.rtol.fit(n), c.base.atol.fit(n));
+        let rv: Vec<f64> = (0..n).map(|j| rt.at(j)).collect();
+        let av: Vec<f64> = (0..n).map(|j| at.at(j)).collect();
+        tolscale = tolscale.max(crate::props::c01::radau_internal_tolscale(&rv, &av, &vec![ymax; n]));
+    }
     let nacc = plain.naccpt.max(1) as f64;
     let acc_bound = 20.0 * prob.kappa() * nacc * tolscale + 64.0 * f64::EPSILON * (1.0 + ymax) * nacc.sqrt() + lmax * 8.0 * ulp(sp.x0.abs().max(sp.xend.abs()));
     let mut near_grid = 0usize;
